@@ -168,16 +168,27 @@ def opsOk (kind : Kind) (ops : List (Op α κ)) : Bool := ops.all (opOk kind)
 
 /-- precondition of a history as the generator uses it: every operation meets its documented
     precondition in the state the *spec* reaches -/
-def validHist (isSet : Bool) (lt : α → α → Bool) (h : Het α κ) (e : Elem α) (cap : Nat) : St α → List (Op α κ) → Bool
+def validHist (isSet : Bool) (lt : α → α → Bool) (h : Het α κ) (cap : Nat) : St α → List (Op α κ) → Bool
   | _, [] => true
-  | s, op :: ops => Spec.valid cap lt s op && validHist isSet lt h e cap (Spec.step isSet lt h e cap s op).1 ops
+  | s, op :: ops => Spec.valid cap lt s op && validHist isSet lt h cap (Spec.step isSet lt h cap s op).1 ops
+
+/-- the same for extended histories (`XOp`) -/
+def xopOk (kind : Kind) : XOp α κ → Bool
+  | .base op => opOk kind op
+  | _ => true
+
+def xopsOk (kind : Kind) (ops : List (XOp α κ)) : Bool := ops.all (xopOk kind)
+
+def xvalidHist (isSet : Bool) (lt : α → α → Bool) (h : Het α κ) (e : Elem α) (cap : Nat) : St α → List (XOp α κ) → Bool
+  | _, [] => true
+  | s, op :: ops => Spec.xvalid cap lt s op && xvalidHist isSet lt h e cap (Spec.xstep isSet lt h e cap s op).1 ops
 
 
 /-! equation lemmas of the recursive definitions are generated here (not in Props.lean, where the
     audit would count them as obligations) -/
-theorem run_nil [DecidableEq α] (kind : Kind) (h : Het α κ) (e : Elem α) (cap : Nat) (s : St α) :
-    run kind lt h e cap s [] = .ok (s, []) := by simp only [run]
-theorem spec_run_nil (b : Bool) (h : Het α κ) (e : Elem α) (cap : Nat) (s : St α) : Spec.run b lt h e cap s [] = (s, []) := by
+theorem run_nil [DecidableEq α] (kind : Kind) (h : Het α κ) (cap : Nat) (s : St α) :
+    run kind lt h cap s [] = .ok (s, []) := by simp only [run]
+theorem spec_run_nil (b : Bool) (h : Het α κ) (cap : Nat) (s : St α) : Spec.run b lt h cap s [] = (s, []) := by
   simp only [Spec.run]
 theorem spec_insertRange_nil (cap : Nat) (l : List α) : Spec.insertRange lt cap l [] = l := by
   simp only [Spec.insertRange]
@@ -187,7 +198,7 @@ theorem fsInsertRange_nil (cap : Nat) (l : List α) : fsInsertRange lt cap l [] 
   simp only [fsInsertRange]
 theorem fiInsertRange_nil (cap : Nat) (l : List α) : fiInsertRange lt cap l [] = .ok l := by
   simp only [fiInsertRange]
-theorem validHist_nil (b : Bool) (h : Het α κ) (e : Elem α) (cap : Nat) (s : St α) : validHist b lt h e cap s [] = true := by
+theorem validHist_nil (b : Bool) (h : Het α κ) (cap : Nat) (s : St α) : validHist b lt h cap s [] = true := by
   simp only [validHist]
 
 end Tetl.C09
